@@ -350,7 +350,9 @@ func (a *Accounts) getOrNew(address types.Address) *Model {
 			dirtyBalances: map[types.CoinID]struct{}{},
 			isNew:         true,
 		}
-		a.setToMap(address, account)
+		// queries create the empty model of an unknown address through this path as well: whoever
+		// comes second takes the model that is already cached
+		account = a.setToMapIfAbsent(address, account)
 	}
 
 	return account
